@@ -976,6 +976,72 @@ func RunProxyWrites(seed int64) (runs []PxWriteRun, viols []drv.Violation, err e
 				hb.close()
 				runs = append(runs, PxWriteRun{backend, mode, fmt.Sprintf("full upload queue: 8 uploads, %d handed over", arrived), 20})
 			}
+
+			// an upload that waits in the queue (there is room) while its local file is evicted: it was accepted, so it
+			// reaches the backend all the same, byte for byte (Cache.tla: PutCommit hands the *file* to the backend, the
+			// index entry may go at any time afterwards)
+			if backend == "http" {
+				hb := newHTTPBk(false)
+				hb.st.PutGate = make(chan struct{})
+				u, _ := url.Parse(hb.st.Srv.URL)
+				hb.tr = &http.Transport{}
+				lg := drv.Silent()
+				px, e := httpproxy.New(u, mode, &http.Client{Transport: hb.tr}, lg, lg, 1, 50)
+				if e != nil {
+					return runs, viols, e
+				}
+				f, e := fe.New(fe.Opts{Mode: mode, MaxSize: 6 * 4096, Proxy: px})
+				if e != nil {
+					return runs, viols, e
+				}
+				var blobs [][]byte
+				for i := 0; i < 6; i++ {
+					data := drv.GenData(rng, 5000+i, 0) // two blocks each: the third upload starts evicting the first
+					blobs = append(blobs, data)
+					if e := f.Cache.Put(ctx, cache.CAS, fmtw.Sha(data), int64(len(data)), bytes.NewReader(data)); e != nil {
+						bad("queued uploads: upload %d refused: %v", i, e)
+					}
+				}
+				rec.WaitIdle(f.Cache, 5*time.Second)
+				evicted := 0
+				for _, data := range blobs[:3] {
+					if ok, _ := f.Cache.Contains(ctx, cache.CAS, fmtw.Sha(data), int64(len(data))); !ok {
+						evicted++
+					}
+				}
+				close(hb.st.PutGate)
+				waitFor(func() bool {
+					n := 0
+					for _, data := range blobs {
+						if _, ok := hb.st.Get(hb.path(cache.CAS, fmtw.Sha(data), mode)); ok {
+							n++
+						}
+					}
+					return n == len(blobs)
+				}, 10*time.Second)
+				for i, data := range blobs {
+					obj, ok := hb.st.Get(hb.path(cache.CAS, fmtw.Sha(data), mode))
+					if !ok {
+						bad("queued uploads: upload %d of 6 was accepted while the queue had room, its local copy was evicted before its turn (%d of the first 3 evicted), and it never reached the backend", i+1, evicted)
+						continue
+					}
+					if mode == "zstd" {
+						dec, _, derr := fmtw.DecodeCAS(obj)
+						if derr != nil || !bytes.Equal(dec, data) {
+							bad("queued uploads: the object that arrived for upload %d is not the blob", i+1)
+						}
+					} else if !bytes.Equal(obj, data) {
+						bad("queued uploads: the object that arrived for upload %d is not the blob", i+1)
+					}
+				}
+				waitFor(func() bool { return hb.busy() == 0 && openCacheFiles(f.Dir) == 0 }, 5*time.Second)
+				if n := openCacheFiles(f.Dir); n != 0 {
+					bad("queued uploads: %d descriptor(s) into the cache directory still open after the queue drained", n)
+				}
+				f.Close()
+				hb.close()
+				runs = append(runs, PxWriteRun{backend, mode, fmt.Sprintf("queued uploads outlive local eviction: 6 uploads, %d evicted while queued", evicted), 12})
+			}
 		}
 	}
 	return runs, viols, nil
